@@ -61,7 +61,7 @@ def run(check):
     gates_of = {}
     for i in range(n):
         rng = random.Random(derive_seed(check.seed, "c02", i))
-        g = runfam.gen_terminating(check.seed, "c02-%d" % i, shape=rng.choice(["chain", "diamond", "fan_in_step", "fan_out", "wait_for", "deploy_expr", "enabled", "foreach_after", "random_dag", "random_dag"]), p_fail=0.15,
+        g = runfam.gen_terminating(check.seed, "c02-%d" % i, shape=rng.choice(["chain", "diamond", "fan_in_step", "fan_out", "wait_for", "deploy_expr", "enabled", "foreach_after", "random_dag", "random_dag", "multiref", "multiref"]), p_fail=0.15,
                                    outcomes=["error", "alt", "crash", "deployfail"])
         if g is None:
             continue
